@@ -102,8 +102,8 @@ func enumText(items []Value, layout int) string {
 		lits[i] = enumLit(it, layout)
 	}
 	switch layout {
-	case 1, 4, 5, 6:
-		nl := map[int]string{1: "\n", 4: "\r\n", 5: "\r", 6: "\n"}[layout]
+	case 1, 4, 5, 6, 8:
+		nl := map[int]string{1: "\n", 4: "\r\n", 5: "\r", 6: "\n", 8: "\n"}[layout]
 		var sb strings.Builder
 		sb.WriteString("[" + nl)
 		for i, l := range lits {
@@ -115,6 +115,9 @@ func enumText(items []Value, layout int) string {
 				sb.WriteString(" //" + nl)
 			} else {
 				sb.WriteString(" // comment " + strconv.Itoa(i) + nl)
+				if layout == 8 { // a comment line of its own after the comment of the value (belongs to no value), plain and indented
+					sb.WriteString("// free line" + nl + "    // another" + nl)
+				}
 			}
 		}
 		sb.WriteString("]")
@@ -256,11 +259,22 @@ func init() {
 					return
 				}
 				inline := jschema.New("inline", ex+" // {enum: "+enumText(c.Items, 0)+"}")
+				// the list as the rule writes it (line breaks, // comments), inside a multi-line annotation: the same list
+				var inlineML *jschema.Schema
+				if c.Layout == 1 || c.Layout == 4 || c.Layout == 5 || c.Layout == 6 || c.Layout == 8 {
+					inlineML = jschema.New("inline-ml", ex+" /* {enum: "+text+"} */")
+				}
 				for di, want := range c.Verdicts {
 					d := docs[di].JSON()
 					a := guard(func() error { return named.Validate(jdoc.New("d", d)) })
 					b := guard(func() error { return inline.Validate(jdoc.New("d", d)) })
 					atomic.AddInt64(&evals, 2)
+					if inlineML != nil {
+						atomic.AddInt64(&evals, 1)
+						if m := guard(func() error { return inlineML.Validate(jdoc.New("d", d)) }); m.OK != b.OK || m.Kind == "panic" {
+							bad("enum", text, fmt.Sprintf("the list written out in a multi-line annotation %v (%d %s) vs on one line %v (%s)", m.OK, m.Code, m.Msg, b.OK, b.Msg), d)
+						}
+					}
 					if a.OK != b.OK || a.Kind == "panic" || b.Kind == "panic" {
 						bad("enum", text, fmt.Sprintf("named %v (%s) vs inline %v (%s)", a.OK, a.Msg, b.OK, b.Msg), d)
 					} else if want != 2 && a.OK != (want == 1) {
